@@ -296,14 +296,43 @@ theorem checkAll_src (s : State) :
 
 /-! ### `runAsync`: the context tree and what is started -/
 
-def keepCallsGo (p : Path) : List Ev := p.filter fun e => match e with | .call _ => true | .go _ => true | .fail _ => true | _ => false
+def goEvents (p : Path) : List String := p.filterMap fun e => match e with | .go t => some t | _ => none
+def callEvents (p : Path) : List String := p.filterMap fun e => match e with | .call t => some t | _ => none
 
-theorem runAsync_outcomes :
-    runAsync.map keepCallsGo =
-      [[.call "WithCancel(poolCtx)", .call "WithCancel(runCtx)", .call "buildNewInstanceSchedule", .fail "buildNewInstanceSchedule"],
-       [.call "WithCancel(poolCtx)", .call "WithCancel(runCtx)", .call "buildNewInstanceSchedule",
-        .go "Run(runCtx)", .go "send:providerErr", .go "Run(runCtx)", .go "send:aggregatorErr",
-        .go "startInstances(instanceStartCtx)", .go "send:startRes"]] := by decide
+/-- the same elements, in any order -/
+def sameElems (a b : List String) : Bool := a.length == b.length && a.all b.contains && b.all a.contains
+
+/-- the run context is a child of the pool context and the instance-start context a child of the run context (in
+this order); the shared schedule is built before anything is started, and its failure starts nothing -/
+theorem runAsync_contexts :
+    runAsync.map (fun p => (callEvents p, p.failed, goEvents p == [])) =
+      [(["WithCancel(poolCtx)", "WithCancel(runCtx)", "buildNewInstanceSchedule"], some "buildNewInstanceSchedule", true),
+       (["WithCancel(poolCtx)", "WithCancel(runCtx)", "buildNewInstanceSchedule"], none, false)] := by decide
+
+/-- what is started (in whatever order): provider and aggregator on the run context, the start goroutine on the
+instance-start context, each sending its result on its own channel -/
+theorem runAsync_starts :
+    (runAsync.filter (fun p => p.failed == none)).map (fun p => sameElems (goEvents p)
+        ["Provider.Run(runCtx)", "send:providerErr", "Aggregator.Run(runCtx)", "send:aggregatorErr",
+         "startInstances(instanceStartCtx)", "send:startRes"]) = [true] := by decide
+
+/-- a result is sent right after the call that produces it -/
+def sentAfter (p : Path) (call chan : String) : Bool := ((p.after (.go call)).head? == some (.go chan))
+
+theorem runAsync_result_channels :
+    (runAsync.filter (fun p => p.failed == none)).all (fun p =>
+      sentAfter p "Provider.Run(runCtx)" "send:providerErr" && sentAfter p "Aggregator.Run(runCtx)" "send:aggregatorErr" &&
+      sentAfter p "startInstances(instanceStartCtx)" "send:startRes") = true := by decide
+
+/-- with `rps-per-instance` the factory itself goes to the instances (the model's `.sched none`, failures show up in
+`newInstance`); otherwise ONE schedule is built here, its failure is the failure of `runAsync` (`.sched (some e)`),
+and when it runs out its callback cancels the instance start unless that is already done (`.rpsFinished`) -/
+theorem buildSchedule_outcomes :
+    buildNewInstanceSchedule.map (fun p => (p.has (.cond "p.RPSPerInstance"), callEvents p, p.failed)) =
+      [(true, [], none), (false, ["NewRPSSchedule"], some "NewRPSSchedule"),
+       (false, ["NewRPSSchedule", "NewCallbackOnFinishSchedule"], none)] ∧
+    sharedScheduleFinished.map (fun p => (firstComm p, callEvents p)) =
+      [(some "<-startCtx.Done()", []), (some "default", ["cancelStart"])] := by decide
 
 /-! ### `Engine.Run`, `Engine.Wait`, `newPool` -/
 
